@@ -106,6 +106,15 @@ DEAD_ARM_TEMPLATES = [
     "{ RdV = 0 ? clz32(RsV) : RtV; }", "{ RdV = 1 ? RtV : ({ int32_t q = RsV; q; }); }", "{ int32_t a = RsV; RdV = 0 ? a : 5; ReV = a; }",
     "{ RdV = (2 > 1) ? siV : uiV; ReV = uiV; }", "{ RdV = sizeof(RsV) ? RtV : RsV; }",
 ]
+# conditions whose value is known at compile time but is not a bare literal: a fold must use the *converted* value
+CONST_CONDS = ["((uint8_t) 0x100)", "((int8_t) 0x100)", "((uint8_t) 0x101)", "((int16_t) 0x10000)", "((uint16_t) 0x18000)",
+               "((int32_t) 0x100000000LL)", "((uint32_t) 4294967296)", "(!5)", "(!0)", "(-0)", "(1 - 1)", "(2 * 0)", "(3 - 2)",
+               "((int64_t) 0)", "((uint8_t) (0x80 + 0x80))", "((uint16_t) -65536)", "(!(uint8_t) 0x100)", "(~0)", "((int8_t) 0x80)"]
+CONST_COND_SHAPES = ["{ RdV = @ ? RsV : RtV; }", "{ RdV = @ ? 5 : clz32(8); }", "{ RdV = @ ? clz32(RsV) : RtV; }",
+                     "{ if (@) { RdV = RsV; } else { RdV = RtV; } }",
+                     "{ RdV = (@ ? 1 : 0) ? RsV : RtV; }", "{ RdV = RsV + (@ ? 1 : 2); }"]
+CONST_COND_TEMPLATES = [sh.replace("@", k) for sh in CONST_COND_SHAPES for k in CONST_CONDS]
+
 DIVISIONS = [("6 / 2", 3), ("7 / 2", None), ("1 / 0", None), ("-6 / 2", -3), ("100 / 10", 10), ("5 / 5", 1), ("0 / 5", 0),
              ("9223372036854775807LL / 1LL", 2**63 - 1), ("0xffffffffffffffffULL / 5ULL", (2**64 - 1) // 5),
              ("0x20000000000001LL / 1LL", 0x20000000000001), ("0xffffffffffffffffULL / 2ULL", None), ("7 / 7", 1)]
@@ -216,7 +225,7 @@ def run_check(ctx):
     npairs = 1500 if ctx.tier == "thorough" else 150
     pairs = [(rng.choice(lits), rng.choice(lits)) for _ in range(npairs)]
     items = [("lit", l) for l in lits] + [("pair", pr) for pr in pairs] + [("div", d) for d in DIVISIONS] + \
-            [("dead", t) for t in DEAD_ARM_TEMPLATES]
+            [("dead", t) for t in DEAD_ARM_TEMPLATES + CONST_COND_TEMPLATES]
     ctx.extra["literal_spellings"] = len(lits)
     chunks = [items[i::48] for i in range(48)]
     open_classes = set()
